@@ -86,7 +86,7 @@ mod pm {
 
 fn depths_for(thorough: bool, label: &str) -> Vec<usize> {
     if label.starts_with("rln") {
-        return if thorough { vec![2, 3, 5, 8, 20] } else { vec![3, 8, 20] };
+        return if thorough { vec![2, 3, 5, 8, 10, 11, 20] } else { vec![3, 8, 10, 11, 20] };
     }
     if label.contains("toy") {
         return vec![1, 2, 3, 4, 5, 8, 12];
